@@ -158,6 +158,14 @@ def gen_value(rng, name, marker):
         return "period", ["period", s, e]
     if u in ("TZOFFSETFROM", "TZOFFSETTO"):
         return "utcoffset", ["td", 0, rng.choice([3600, 7200, 19800, 0])] if rng.random() < 0.7 else ["td", -1, 68400]
+    if u == "X-BIN":
+        return "rawonly:vBinary", ["s", "binary " + marker]
+    if u == "X-BOOL":
+        return "rawonly:vBoolean", ["B", rng.random() < 0.5]
+    if u == "X-FLOAT":
+        return "rawonly:vFloat", ["f", rng.choice([1.5, -0.25, 1e-7, 100000.0])]
+    if u == "X-TIME":
+        return "rawonly:vTime", ["time", rng.randint(0, 23), rng.randint(0, 59), rng.randint(0, 59)]
     if u in ("COMMENT", "X-MULTI", "x-multi", "CONTACT"):
         return "text", ["s", marker]
     return "text", ["s", rng.choice(TEXTS) if rng.random() < 0.7 else marker]
@@ -172,7 +180,8 @@ PROP_MENU = {
     "VCALENDAR": ["VERSION", "PRODID", "CALSCALE", "METHOD", "X-WR-CALNAME", "x-custom", "COMMENT"],
     "VEVENT": ["SUMMARY", "DTSTART", "DTEND", "DURATION", "DTSTAMP", "UID", "RECURRENCE-ID", "SEQUENCE", "RRULE",
                "RDATE", "EXDATE", "COMMENT", "ATTENDEE", "ORGANIZER", "CATEGORIES", "GEO", "URL", "LOCATION",
-               "DESCRIPTION", "CREATED", "X-MULTI", "x-multi", "X-Foo", "x-foo", "a-first", "Zz-last", "ATTACH"],
+               "DESCRIPTION", "CREATED", "X-MULTI", "x-multi", "X-Foo", "x-foo", "a-first", "Zz-last", "ATTACH",
+               "X-BIN", "X-BOOL", "X-FLOAT", "X-TIME"],
     "VTODO": ["SUMMARY", "DTSTART", "DUE", "DURATION", "DTSTAMP", "UID", "RRULE", "RDATE", "COMMENT", "PRIORITY",
               "PERCENT-COMPLETE", "ATTENDEE", "X-Foo", "CATEGORIES"],
     "VJOURNAL": ["SUMMARY", "DTSTART", "DESCRIPTION", "COMMENT", "UID", "RDATE", "EXDATE", "X-Foo"],
@@ -272,6 +281,10 @@ def generate(rng, cfg):
                 params.append(p)
         step = {"comp": c, "name": name, "v": v, "vk": vk, "params": params}
         base = vk.split(":")[0]
+        if base == "rawonly":
+            step["raw"] = vk.split(":")[1]
+            trace.append([0, "add", step])
+            continue
         if swarm["raw"] and base in RAW_CLASSES and rng.random() < 0.3:
             # README idiom: a raw value object, parameters set on the object itself
             step["raw"] = RAW_CLASSES[base]
